@@ -6,7 +6,7 @@ usage: python3-vt check.py <Cxx> --tier quick|thorough
        python3-vt check.py --setup
 Exit codes: 0 held / only known findings; 1 VIOLATION printed; 2 machinery error.
 """
-import argparse, glob, hashlib, json, os, re, shutil, signal, subprocess, sys, time
+import argparse, glob, hashlib, itertools, json, os, re, shutil, signal, subprocess, sys, time
 from concurrent.futures import ThreadPoolExecutor
 
 VERIF = os.path.dirname(os.path.abspath(__file__))
@@ -91,6 +91,11 @@ HARNESS = {
     "fz_dimacs": dict(src="fz_dimacs.cpp", cxx="clang++", flags=["-O1", "-g", "-fsanitize=fuzzer,address,undefined", "-fno-sanitize-recover=undefined"], libs=["-ltbb"]),
     "h_dimacs": dict(src="h_dimacs.cpp", cxx="clang++", flags=["-O1", "-g"] + SAN, libs=["-lrapidcheck", "-ltbb"]),
     "h_alg": dict(src="h_alg.cpp", cxx="clang++", flags=["-O1", "-g"] + SAN, libs=["-lrapidcheck"]),
+    "h_sched": dict(src="h_sched.cpp", cxx="clang++", flags=["-O1", "-g"] + SAN, libs=["-lrapidcheck", "-lboost_timer"], pre_includes=["mocktbb"]),
+    "h_sched_tsan": dict(src="h_sched.cpp", cxx="clang++", flags=["-O1", "-g", "-fsanitize=thread", "-DMOCKTBB_THREADS"],
+                         libs=["-lrapidcheck", "-lboost_timer", "-lpthread"], pre_includes=["mocktbb"]),
+    "h_mpi": dict(src="h_mpi.cpp", cxx="clang++", flags=["-O1", "-g", "-fsanitize=undefined", "-fno-sanitize-recover=undefined"],
+                  inc=MPI_INC, libs=["-lrapidcheck", "-ltbb", "-lboost_timer"] + MPI_LIBS),
     "h_comp": dict(src="h_comp.cpp", cxx="clang++", flags=["-O1", "-g"] + SAN, libs=["-lrapidcheck", "-ltbb", "-lboost_timer"]),
 }
 
@@ -210,6 +215,40 @@ prop("C09", harness="h_exact",
           "Input classes: 'near-tie' (for some ordered pair two different last edges give routes whose exact lengths agree within a relative 1e-12, exact ties included) / 'tie-free'. Non-trivial = "
           "dimension>=1 and near-tie.",
      assumptions=["weights are doubles >= 2^-10 so every weight is an exact multiple of 2^-62"])
+prop("C03", harness="h_sched",
+     quick=dict(shards=16, cases=2500, env={"VERIF_MAXN": "12"},
+                extra_phases=[dict(harness="h_sched_tsan", shards=8, cases=250, env={"VERIF_MAXN": "10", "TSAN_OPTIONS": "halt_on_error=1:exitcode=66:report_signal_unsafe=0"}, seed_offset=300)]),
+     thorough=dict(shards=16, cases=20000, env={"VERIF_MAXN": "22"},
+                   extra_phases=[dict(harness="h_sched_tsan", shards=16, cases=2500, env={"VERIF_MAXN": "12", "TSAN_OPTIONS": "halt_on_error=1:exitcode=66:report_signal_unsafe=0"}, seed_offset=300)]),
+     rule="Generated graph x exact palette x the six *_tbb entry points (k in 1..4 for approximate) x a generated SCHEDULE TAPE interpreted by a "
+          "drop-in mock of the used oneTBB subset (engine/mocktbb, first on the include path): any partition of each range into consecutive "
+          "non-empty sub-ranges, any execution order, any grouping of consecutive sub-ranges into accumulation runs that start from a copy of the "
+          "identity, any order-preserving join tree, any position of concurrent push_backs that preserves each task's own order. Tape mode "
+          "(ASan+UBSan): full sequential contract (valid basis, returned==sum, ==optimum for exact, <=(2k-1)*opt for approximate). Thread mode "
+          "(each leaf/run on its own std::thread, -fsanitize=thread): ThreadSanitizer decides the 'no conflicting unsynchronised accesses' clause "
+          "for that partition independent of timing. Non-trivial = some parallel_reduce used >=2 accumulation runs or >=1 push_back was "
+          "interleaved (counters kept by the mock).",
+     assumptions=["the mock implements the documented semantics of tbb::parallel_for / functional parallel_reduce / concurrent_vector::push_back and is not more liberal than oneTBB",
+                  "races inside real TBB internals are out of scope (TSan on real libtbb is unusable here: uninstrumented runtime)",
+                  "real-libtbb executions of the same entry points with generated worker limits are part of C07 and C08"])
+MPIRUN = ["mpiexec", "--allow-run-as-root", "--oversubscribe", "--mca", "mpi_yield_when_idle", "0", "-n"]
+prop("C04", harness="h_mpi",
+     quick=dict(shards=4, cases=1500, parallel=2, timeout=900, env={"VERIF_MAXN": "12"}, launcher=MPIRUN + ["8"],
+                extra_phases=[dict(shards=2, cases=1200, launcher=MPIRUN + ["3"], seed_offset=100, replay_with=False),
+                              dict(shards=1, cases=600, launcher=MPIRUN + ["1"], seed_offset=200, replay_with=False)]),
+     thorough=dict(shards=8, cases=12000, parallel=2, timeout=6000, env={"VERIF_MAXN": "16"}, launcher=MPIRUN + ["8"],
+                   extra_phases=[dict(shards=4, cases=8000, launcher=MPIRUN + ["3"], seed_offset=100, replay_with=False),
+                                 dict(shards=4, cases=8000, launcher=MPIRUN + ["5"], seed_offset=150, replay_with=False),
+                                 dict(shards=2, cases=4000, launcher=MPIRUN + ["1"], seed_offset=200, replay_with=False)]),
+     rule="mpiexec jobs of 8, 3 (5 in thorough) and 1 processes. Rank 0 drives rapidcheck; every evaluation is broadcast as case text and executed "
+          "collectively: a generated size P in 1..world selects the first P ranks through communicator::split, each selected rank perturbs its "
+          "allocator state with a generated, rank-mixed LAYOUT TAPE (allocate 64 node-sized blocks, shuffle, free a subset) before building the "
+          "identical graph, then all P ranks call the generated MPI entry point (five of them) on the sub-communicator. Oracle at rank 0: every "
+          "rank returned (job watchdog), no rank threw, ranks != 0 emitted nothing, rank 0's output is a valid basis with returned == sum == "
+          "reference optimum and equal sorted weight vector. Non-trivial = P>=2, dimension>=2 and at least two ranks ended up with different "
+          "address orders of the edge properties (hash of the pointer-order permutation gathered from all ranks).",
+     assumptions=["exact weight domain", "heap layouts are sampled through allocator perturbation (glibc malloc; harness built with UBSan only, no ASan), not enumerated",
+                  "deadlock is observed through a generous wall-clock watchdog on the whole job, replayed 3x before it is reported"])
 prop("C05", harness="h_approx",
      quick=dict(shards=16, cases=3000, env={"VERIF_MAXN": "16"}),
      thorough=dict(shards=16, cases=20000, env={"VERIF_MAXN": "40"}),
@@ -342,13 +381,21 @@ def run_shard(binp, pid, seed, cases, env, excludes, workdir, idx, timeout, max_
             st = json.load(open(statp))
         except Exception as ex:  # truncated
             st = None
+    cur = statp + ".current"
+    if (to or rc != 0) and os.path.exists(cur) and not (st and (st.get("death_case") or st.get("failures"))):
+        st = st or {}
+        st["death_case"] = open(cur).read()   # MPI harness: the case rank 0 published last
     return dict(idx=idx, rc=rc, out=out, timed_out=to, stats=st, seed=seed)
 
 
 def replay_once(binp, pid, path, env, timeout=120, launcher=None, workdir=None):
     workdir = workdir or os.path.dirname(path)
     statp = os.path.join(workdir, "replay-stats-%d.json" % os.getpid())
-    cmd = [binp, "--property", pid, "--stats", statp, "--replay", path]
+    try:
+        cp = case_field(open(path).read(), "property")
+    except OSError:
+        cp = ""
+    cmd = [binp, "--property", cp or pid, "--stats", statp, "--replay", path]
     if launcher:
         cmd = launcher + cmd
     e = dict(ASAN_ENV)
@@ -535,8 +582,45 @@ def confirm_and_report(binp, pid, casepath, env, launcher=None, expect_key=None,
 def full_key(pid, key, casetext):
     if key and key.startswith(pid + "/"):
         return key
+    if key and re.match(r"^C\d\d\w*/", key):   # produced by a helper property of another harness (e.g. C07E): re-root under pid
+        return pid + "/" + key.split("/", 1)[1]
     entry = case_field(casetext, "entry") or "-"
     return "%s/%s/any/%s" % (pid, entry, key)
+
+
+def phase_bins(pid, conf):
+    """All (binary, env, launcher) combinations a property's tier uses; replays go through each of them."""
+    P = PROPS[pid]
+    out = [(build_harness(P["harness"]), dict(conf.get("env", {})), conf.get("launcher"))]
+    for ph in conf.get("extra_phases", []):
+        if ph.get("harness") and ph.get("replay_with", True):
+            e = dict(conf.get("env", {}))
+            e.update(ph.get("env", {}))
+            out.append((build_harness(ph["harness"]), e, ph.get("launcher", conf.get("launcher"))))
+    return out
+
+
+def replay_all(pid, conf, path, workdir=None, timeout=120):
+    """Replay through every binary of the property; first failing result wins."""
+    last = None
+    try:
+        cp = case_field(open(path).read(), "property")
+    except OSError:
+        cp = ""
+    for binp, env, launcher in phase_bins(pid, conf):
+        hname = os.path.basename(binp)
+        if cp and cp != pid and not binary_knows(hname, cp):
+            continue
+        r = replay_once(binp, pid, path, env, launcher=launcher, workdir=workdir, timeout=timeout)
+        r["binp"], r["env"], r["launcher"] = binp, env, launcher
+        if r["failed"]:
+            return r
+        last = r
+    return last or dict(failed=False, key=None, msg="no binary replayed this case", out="")
+
+
+def binary_knows(hname, prop):
+    return True
 
 
 def run_rc_property(pid, tier, conf=None):
@@ -561,14 +645,14 @@ def run_rc_property(pid, tier, conf=None):
     n_replayed = 0
     for rp in committed_replays(pid):
         n_replayed += 1
-        r = replay_once(binp, pid, rp, env, launcher=launcher, workdir=workdir)
+        r = replay_all(pid, conf, rp, workdir=workdir)
         if r["failed"]:
             k = r["key"] if r["key"] != "crash" else crash_class(r["out"])
             fk = full_key(pid, k, open(rp).read())
             if any(key_matches(fk, f["key"]) for f in findings):
                 known_hit[fk] = known_hit.get(fk, 0) + 1
                 continue
-            ok, k2, msg = confirm_and_report(binp, pid, rp, env, launcher=launcher)
+            ok, k2, msg = confirm_and_report(r["binp"], pid, rp, r["env"], launcher=r["launcher"])
             if ok:
                 violations.append((fk, msg, rp))
             else:
@@ -578,19 +662,24 @@ def run_rc_property(pid, tier, conf=None):
     shards = conf["shards"]
     cases = conf["cases"]
     timeout = conf.get("timeout", 3000)
-    par = conf.get("parallel", min(shards, NCPU))
+    par = conf.get("parallel", NCPU)
     with ThreadPoolExecutor(max_workers=par) as ex:
         futs = [ex.submit(run_shard, binp, pid, seed * 1000 + i, cases, env, excludes, workdir, i, timeout,
                           conf.get("max_size", 100), launcher) for i in range(shards)]
+        bins = [binp] * shards
         base_idx = shards
         for ph in conf.get("extra_phases", []):
             penv = dict(env)
             penv.update(ph.get("env", {}))
+            pbin = build_harness(ph["harness"]) if ph.get("harness") else binp
             for i in range(ph["shards"]):
-                futs.append(ex.submit(run_shard, binp, pid, seed * 1000 + ph.get("seed_offset", 500) + i, ph["cases"], penv, excludes,
-                                      workdir, base_idx + i, ph.get("timeout", timeout), conf.get("max_size", 100), launcher))
+                futs.append(ex.submit(run_shard, pbin, ph.get("property", pid), seed * 1000 + ph.get("seed_offset", 500) + i, ph["cases"], penv, excludes,
+                                      workdir, base_idx + i, ph.get("timeout", timeout), conf.get("max_size", 100), ph.get("launcher", launcher)))
+                bins.append(pbin)
             base_idx += ph["shards"]
         results = [f.result() for f in futs]
+        for r, b in zip(results, bins):
+            r["binp"] = b
     fz = conf.get("fuzz")
     fuzz_execs = 0
     if fz:
@@ -631,7 +720,7 @@ def run_rc_property(pid, tier, conf=None):
                 continue
             if hard and key != "hang":
                 try:
-                    text = minimise_crash_case(binp, pid, text, env, workdir, key, launcher=launcher)
+                    text = minimise_crash_case(r.get("binp", binp), pid, text, env, workdir, key, launcher=launcher)
                 except Exception as exn:  # minimisation is best effort
                     notes.append("minimisation failed: %s" % exn)
             name = "%s-%s.case" % (pid, hashlib.sha1(text.encode()).hexdigest()[:16])
@@ -639,7 +728,7 @@ def run_rc_property(pid, tier, conf=None):
             with open(path, "w") as f:
                 f.write("# key %s\n# %s\n" % (fk, msg.replace("\n", " ")[:400]))
                 f.write(text)
-            ok, k2, m2 = confirm_and_report(binp, pid, path, env, launcher=launcher,
+            ok, k2, m2 = confirm_and_report(r.get("binp", binp), pid, path, env, launcher=launcher,
                                             timeout=(600 if key == "hang" else 120))
             if ok:
                 if not any(v[0] == fk for v in violations):
@@ -670,13 +759,159 @@ def run_rc_property(pid, tier, conf=None):
     return 1 if violations else 0
 
 
+# ----------------------------------------------------------------------------- C19 (programs -> compiler/linker)
+def run_c19(pid, tier):
+    import headers as H
+    from hypothesis import given, settings, seed as hseed, strategies as st, HealthCheck, Phase
+    t0 = time.time()
+    sd = seed_value()
+    th = tree_hash(["c19"])
+    workdir = os.path.join(BUILD, "c19-" + th)
+    for old in glob.glob(os.path.join(BUILD, "c19-*")):
+        if old != workdir:
+            shutil.rmtree(old, ignore_errors=True)
+    b = H.Builder(REPO, workdir, gen_config)
+    hs = H.public_headers(REPO)
+    findings = open_findings(pid)
+    failures = {}   # key -> (msg, program)
+    evaluations = 0
+    nontrivial = set()
+    samples = []
+    classes = {}
+
+    def record(res, tus):
+        if res is not None and res[0] not in failures:
+            failures[res[0]] = (res[1], tus)
+
+    pool = ThreadPoolExecutor(max_workers=NCPU)
+    # class 1: every header alone and first, both configurations (exhaustive); thorough adds clang++ and the "use" variant in syntax-only mode
+    jobs = []
+    cxxs = ["g++"] if tier == "quick" else ["g++", "clang++"]
+    for h in hs:
+        for cfg in ("on", "off"):
+            for cxx in cxxs:
+                tus = [(cfg, False, cxx, [h])]
+                jobs.append((tus, pool.submit(H.check_program, b, tus, False)))
+    # class 2: one object per header with its instantiation snippet (config on), then ALL pairs linked (exhaustive)
+    objjobs = []
+    for h in hs:
+        tus = [("on", True, "g++", [h])]
+        objjobs.append((h, tus, pool.submit(b.compile, [h], "on", True, "g++", False)))
+    for tus, f in jobs:
+        evaluations += 1
+        classes["singleton-" + tus[0][0]] = classes.get("singleton-" + tus[0][0], 0) + 1
+        nontrivial.add(H.program_text(tus))
+        record(f.result(), tus)
+    objs = {}
+    for h, tus, f in objjobs:
+        ok, obj, err = f.result()
+        evaluations += 1
+        classes["use-object"] = classes.get("use-object", 0) + 1
+        if not ok:
+            record(("C19/%s/on-g++/does-not-compile" % h.replace("parmcb/", ""), H.first_error(err)), tus)
+        else:
+            objs[h] = obj
+    pairjobs = []
+    for a, c in itertools.combinations_with_replacement(sorted(objs), 2):
+        tus = [("on", True, "g++", [a]), ("on", True, "g++", [c])]
+        pairjobs.append((tus, pool.submit(b.link, [objs[a], objs[c]])))
+    for tus, f in pairjobs:
+        ok, err = f.result()
+        evaluations += 1
+        classes["pair-link"] = classes.get("pair-link", 0) + 1
+        nontrivial.add(H.program_text(tus))
+        if not ok:
+            record(("C19/%s | %s/on/does-not-link" % (tus[0][3][0].replace("parmcb/", ""), tus[1][3][0].replace("parmcb/", "")), H.first_error(err)), tus)
+    # class 3: generated multi-header translation units (subset x order), linked against each other and a generated single-header partner
+    nprog = 6 if tier == "quick" else 60
+    hdr = st.sampled_from(hs)
+    tu = st.lists(hdr, min_size=2, max_size=3, unique=True)
+    prog = st.tuples(tu, tu, hdr)
+    drawn = []
+
+    @hseed(sd)
+    @settings(max_examples=nprog * 3 + 5, database=None, deadline=None, derandomize=False, phases=[Phase.generate],
+              suppress_health_check=list(HealthCheck))
+    @given(prog)
+    def draw(p):
+        if p not in drawn:
+            drawn.append(p)
+    draw()
+    drawn = drawn[1:nprog + 1] if len(drawn) > nprog else drawn   # the first Hypothesis example is always the minimal one
+    gjobs = []
+    for t1, t2, h3 in drawn:
+        tus = [("on", True, "g++", list(t1)), ("on", True, "g++", list(t2)), ("on", True, "g++", [h3])]
+        gjobs.append((tus, pool.submit(H.check_program, b, tus, True)))
+    for tus, f in gjobs:
+        evaluations += 1
+        classes["generated-multi-header-program"] = classes.get("generated-multi-header-program", 0) + 1
+        nontrivial.add(H.program_text(tus))
+        if len(samples) < 4:
+            samples.append([" ".join(t[3]) for t in tus])
+        record(f.result(), tus)
+    pool.shutdown()
+    # committed replays
+    n_replayed = 0
+    for rp in committed_replays(pid):
+        n_replayed += 1
+        tus = H.parse_program(open(rp).read())
+        record(H.check_program(b, tus, True), tus)
+    samples = [["singleton: %s (config on+off)" % hs[0]], ["pair: %s | %s" % (hs[0], hs[-1])]] + samples
+    violations = []
+    os.makedirs(NEWDIR, exist_ok=True)
+    for key, (msg, tus) in sorted(failures.items()):
+        if any(key_matches(key, f["key"]) for f in findings):
+            continue
+        text = H.program_text(tus)
+        path = os.path.join(NEWDIR, "C19-%s.case" % hashlib.sha1(text.encode()).hexdigest()[:16])
+        with open(path, "w") as f:
+            f.write("# key %s\n# %s\n%s" % (key, msg.replace("\n", " "), text))
+        violations.append((key, msg, path))
+    for f in findings:
+        print("KNOWN-FINDING: property=%s %s" % (pid, f["what"]))
+    coverage = dict(evaluations=evaluations, distinct_nontrivial=len(nontrivial), exhaustive=True,
+                    rule="Programs = sets of translation units, a TU = ordered list of parmcb headers placed first. Enumerated exhaustively: every one of the "
+                         "%d public headers alone (-fsyntax-only) with TBB/MPI configured on and off%s; one object per header including a canonical "
+                         "instantiation snippet, and ALL %d unordered pairs (incl. a header with itself) linked together. Generated with Hypothesis from "
+                         "VERIF_SEED: %d programs of three TUs with 2-3 headers each in generated order, compiled with snippets and linked. Oracles: compiler "
+                         "and linker exit status. Non-trivial = every program (singletons and >=2-TU programs sharing headers are exactly the classes the "
+                         "property names); distinct by program text. 'exhaustive' refers to the singleton and pair classes." % (
+                             len(hs), "" if tier == "quick" else " with g++ and clang++", len(pairjobs), nprog),
+                    samples=samples, classes=classes, compiles=b.compiles, links=b.links, headers=len(hs), committed_replays=n_replayed,
+                    violations_found=[dict(key=k, message=m, replay=p) for k, m, p in violations])
+    write_evidence(pid, tier, sd, "exploration", coverage,
+                   ["instantiation snippets cover the documented entry points of each header, not every template",
+                    "configuration 'off' = PARMCB_HAVE_TBB/PARMCB_HAVE_MPI undefined (system headers still installed)"],
+                   time.time() - t0, len(violations))
+    for k, m, p in violations:
+        print("VIOLATION property=%s replay=%s" % (pid, p))
+        log("  key=%s  %s" % (k, m))
+    return 1 if violations else 0
+
+
+def replay_c19(pid, path):
+    import headers as H
+    workdir = os.path.join(BUILD, "c19-" + tree_hash(["c19"]))
+    b = H.Builder(REPO, workdir, gen_config)
+    tus = H.parse_program(open(path).read())
+    res = H.check_program(b, tus, link=len(tus) > 1 or tus[0][1])
+    if res:
+        print("VIOLATION property=%s replay=%s" % (pid, path))
+        log("  key=%s %s" % res)
+        return 1
+    print("replay passed")
+    return 0
+
+
+prop("C19", runner=run_c19, custom_replay=replay_c19, engine="headers.py")
+
+
 def replay_cmd(pid, path):
     P = PROPS[pid]
     if "custom_replay" in P:
         return P["custom_replay"](pid, path)
-    binp = build_harness(P["harness"])
     conf = P["quick"]
-    r = replay_once(binp, pid, path, conf.get("env", {}), launcher=conf.get("launcher"), workdir=BUILD, timeout=600)
+    r = replay_all(pid, conf, path, workdir=BUILD, timeout=600)
     if r["failed"]:
         k = r["key"] if r["key"] != "crash" else crash_class(r["out"])
         print("VIOLATION property=%s replay=%s" % (pid, path))
